@@ -132,7 +132,34 @@ impl AsyncFileReadWriteVolatile for AFile {
     }
 }
 
+thread_local! {
+    /// the crate's own runtime (io_uring if the kernel offers it, else tokio current-thread), created once
+    static RT: fuse_backend_rs::async_runtime::Runtime = fuse_backend_rs::async_runtime::Runtime::new();
+}
+
+/// the crate's own `async_file::File` (its AsyncFileReadWriteVolatile implementation is part of
+/// src/common/file_traits.rs) over a duplicate of the memfd
+fn real_file(fd: RawFd) -> fuse_backend_rs::async_file::File {
+    use std::os::unix::io::FromRawFd;
+    let d = unsafe { libc::dup(fd) };
+    assert!(d >= 0);
+    fuse_backend_rs::async_file::File::from_std_file(unsafe { std::fs::File::from_raw_fd(d) })
+}
+
+/// op.c == 0: the crate's async File on the crate's runtime; op.c > 0: the limiting mock (short transfers)
 pub fn reader_op<S: BitmapSlice>(r: &mut Reader<'_, S>, op: &Op, files: &mut Files) -> (&'static str, Option<u64>, Option<String>) {
+    if op.c == 0 {
+        let fd = files.sink.f.as_raw_fd();
+        let q = catch_unwind(AssertUnwindSafe(|| {
+            RT.with(|rt| {
+                rt.block_on(async {
+                    let f = real_file(fd);
+                    r.async_read_to_at(&f, op.n, op.x).await
+                })
+            })
+        }));
+        return fold(q, |k| Some(k as u64));
+    }
     let f = AFile { fd: files.sink.f.as_raw_fd(), cap: op.c };
     fold(catch_unwind(AssertUnwindSafe(|| block_on(r.async_read_to_at(&f, op.n, op.x)))), |k| Some(k as u64))
 }
@@ -154,6 +181,18 @@ pub fn writer_op<'a, S: BitmapSlice>(
         "async_write2" => fold(catch_unwind(AssertUnwindSafe(|| block_on(w.async_write2(cut(0), cut(1))))), |k| Some(k as u64)),
         "async_write3" => fold(catch_unwind(AssertUnwindSafe(|| block_on(w.async_write3(cut(0), cut(1), cut(2))))), |k| Some(k as u64)),
         "async_write_all" => fold(catch_unwind(AssertUnwindSafe(|| block_on(w.async_write_all(data)))), |_| None),
+        "async_write_from_at" if op.c == 0 => {
+            let fd = files.src.f.as_raw_fd();
+            let q = catch_unwind(AssertUnwindSafe(|| {
+                RT.with(|rt| {
+                    rt.block_on(async {
+                        let f = real_file(fd);
+                        w.async_write_from_at(&f, op.n, op.x).await
+                    })
+                })
+            }));
+            fold(q, |k| Some(k as u64))
+        }
         "async_write_from_at" => {
             let f = AFile { fd: files.src.f.as_raw_fd(), cap: op.c };
             fold(catch_unwind(AssertUnwindSafe(|| block_on(w.async_write_from_at(&f, op.n, op.x)))), |k| Some(k as u64))
